@@ -90,6 +90,20 @@ def step (line : String) : String :=
       let r := plotLoop (hasDataToPlot n ps cs) fs
       "ok " ++ (if r.isEmpty then "-" else joinNats r)
     | _, _, _, _ => "bad-op"
+  -- plotsellas <frames> <outs csv|-> <curves csv|-> <alternates o:a,o:a|->
+  | ["plotsellas", n, outs, curves, alts] =>
+    let nats (t : String) : Option (List Nat) := if t = "-" then some [] else (t.splitOn ",").mapM (·.toNat?)
+    let pairs (t : String) : Option (List (Nat × Nat)) :=
+      if t = "-" then some [] else (t.splitOn ",").mapM (fun x => match x.splitOn ":" with
+        | [d, o] => match d.toNat?, o.toNat? with
+          | some d, some o => some (d, o)
+          | _, _ => none
+        | _ => none)
+    match n.toNat?, nats outs, nats curves, pairs alts with
+    | some n, some os, some cs, some ps =>
+      let alt : Nat → List Nat := fun m => (ps.filter (fun p => p.1 == m)).map (fun p => p.2)
+      s!"ok {hasDataToPlotLAS alt n os cs}"
+    | _, _, _, _ => "bad-op"
   | _ => "bad-op"
 
 def main : IO Unit := run step
